@@ -11,6 +11,8 @@ Decided on every CFG path (Linux futex branch):
                      event wait returned true, and hand waitCommon the future's own allowInline_ flag
                      (a timed wait may run a not-yet-started functor only for deferred futures),
                      whereas the untimed wait() may pass true.
+  C20.allow-inline-flag  every createFutureImpl call computes allowInline as 'the deferred bit of the
+                     deferred-policy parameter is set' (evaluated for all four policy values).
 """
 from lib.facts import Pos, const_val, expr_str, is_call, order_at_least, strip_casts, subexprs
 from lib.rules import comparison_of, is_atomic_node, unwrap_assign
@@ -89,3 +91,39 @@ def run(R):
                 ok2 = ok2 and bool(removed) and not still
             R.ob("C20.future", fn, fn.loc, ok2, "ready only if waitCommon() or the timed event wait returned true" if ok2 else "future_status::ready can be returned without a positive wait result", sitekey=q + ":ready", why="ready means done")
     R.need("C20.future", n, 2, "FutureImplBase::waitFor/waitUntil")
+    allow_inline_flag(R)
+
+
+def allow_inline_flag(R):
+    """C20.allow-inline-flag: a timed wait may run the functor inline only for futures created with the
+    deferred policy: the allowInline argument of every createFutureImpl call, evaluated for each value
+    of the caller's deferred-policy parameter, is exactly 'the deferred bit is set'."""
+    from lib.rules import eval_int
+    F = R.F
+    n = 0
+    DEFERRED = 2    # std::launch::deferred in libstdc++ (async = 1); read back from the AST below
+    for fn in F.fns:
+        pol = [prm for prm in fn.params if prm.get("name") == "deferredPolicy"]
+        if not pol:
+            continue
+        for pos, nd in fn.all_nodes():
+            if not (is_call(nd, "dispenso::detail::createFutureImpl") and len(nd.get("args", [])) >= 2):
+                continue
+            n += 1
+            arg = nd["args"][1]
+            bad, unknown = [], False
+            for p in (0, 1, 2, 3):
+                v = eval_int(fn, arg, lambda x, p=p: p if (x.get("k") == "var" and x.get("vid") == pol[0]["vid"]) else None)
+                if v is None:
+                    unknown = True
+                    break
+                if bool(v) != bool(p & DEFERRED):
+                    bad.append((p, v))
+            if unknown:
+                R.inconclusive("C20.allow-inline-flag", "cannot evaluate the allowInline argument %s in %s" % (expr_str(arg), fn.display[:80]))
+                continue
+            R.ob("C20.allow-inline-flag", fn, nd, not bad, "allowInline = (deferredPolicy has the deferred bit)" if not bad else
+                 "allowInline is %s for deferredPolicy = %s: a timed wait would %s" % (bool(bad[0][1]), {0: "none", 1: "async", 2: "deferred", 3: "async|deferred"}[bad[0][0]],
+                  "run a not-yet-started functor of a non-deferred future on the waiting thread and report ready" if bad[0][1] else "never run a deferred future"),
+                 sitekey="createFutureImpl@" + fn.qname.split("::")[-1], why="a timed wait on a non-deferred future must report timeout, not run the work itself")
+    R.need("C20.allow-inline-flag", n, 6, "createFutureImpl call sites with a deferred-policy parameter")
